@@ -83,6 +83,10 @@ func drawSchemaCase(rt *rapid.T, cfg smodel.GenConfig, docsPerDef int) schemaCas
 	cfg.NamedUnions = rapid.IntRange(0, 2).Draw(rt, "namedunions") == 0
 	m := smodel.Draw(rt, cfg)
 	c := schemaCase{Format: cfg.Format, Model: m}
+	// one OpenAPI case in three is spread over two packages (cross-file refs)
+	if cfg.Format == smodel.OpenAPI && rapid.IntRange(0, 2).Draw(rt, "twopackages") == 0 {
+		drawSplit(rt, &c)
+	}
 	for _, def := range m.DocDefs() {
 		for i := 0; i < docsPerDef; i++ {
 			c.Docs = append(c.Docs, smodel.DrawDoc(rt, m, def))
